@@ -195,7 +195,15 @@ Definition build_attr_type_str (cv : sconv) (qname : str) (value : option str) :
                  end in
   mk_atype dt true false.
 
-(* ... and for a JSON leaf *)
+(* ... and for a JSON leaf: RawDocumentMapper.build_attr_type, then DictMapper.build_attr_type's override
+   (since /repo fix 9a0cfef): a str value whose inferred datatype has one of the python types int, bool, float,
+   Decimal stays xs:string *)
+Definition json_string_kept (q : str) : bool :=
+  match assoc_str q datatype_pytypes with
+  | Some py => existsb (str_eqb py) json_string_kept_pytypes
+  | None => false
+  end.
+
 Definition build_attr_type_json (cv : sconv) (qname : str) (value : json) : atype :=
   let dt := if str_eqb qname qn_xsi_type then DT_QNAME
             else match value with
@@ -206,7 +214,11 @@ Definition build_attr_type_json (cv : sconv) (qname : str) (value : json) : atyp
                  | JFloat f => float_datatype_q f
                  | JList _ | JObj _ => MISS           (* never reached: containers are handled by the caller *)
                  end in
-  mk_atype dt true false.
+  let dt' := match value with
+             | JStr _ => if json_string_kept dt then dt_qname json_string_fallback else dt
+             | _ => dt
+             end in
+  mk_atype dt' true false.
 
 (* ------------------------------------------------------------------ RawDocumentMapper *)
 Definition select_namespace (ns parent : option str) (tag : str) : option str :=
@@ -512,7 +524,7 @@ Definition reduce_group (g : list fclass) : option fclass :=
   match g with
   | [] => None
   | first :: _ =>
-      Some (mk_fclass (c_qname first) (c_ns first) (existsb c_mixed g) (c_nillable first)
+      Some (mk_fclass (c_qname first) (c_ns first) (existsb c_mixed g) (existsb c_nillable g)
                       (map cleanup_attr (reduce_attributes (map c_attrs g))))
   end.
 
